@@ -90,8 +90,27 @@ def isort : List Hit → List Hit
   | [] => []
   | h :: l => ins h (isort l)
 
+/-- at the Close command (847036a): when the first hit of the subpath is at the start of a segment,
+the last at the end of one, and both lie on the subpath's start point, the last hit is moved in
+front of the first, so that the stable sort keeps the two end-point hits of the start vertex adjacent -/
+def rotateStart (p v0 : IPt) (hs : List Hit) : List Hit :=
+  match hs with
+  | h0 :: _ :: _ =>
+    match hs.getLast? with
+    | some hl =>
+      if h0.tb = .zero ∧ hl.tb = .one ∧ v0.y = p.y ∧ h0.x = (v0.x : Rat) ∧ hl.x = (v0.x : Rat)
+      then hl :: hs.dropLast else hs
+    | none => hs
+  | _ => hs
+
+/-- hits of one subpath in the order in which `RayIntersections` holds them before sorting -/
+def subHits (closed : Bool) (p : IPt) (poly : List IPt) : List Hit :=
+  match poly with
+  | [] => []
+  | a :: _ => if closed then rotateStart p a (chainHits p (subpathVerts true poly)) else chainHits p poly
+
 def rayHits (closed : Bool) (p : IPt) (poly : List IPt) : List Hit :=
-  isort (chainHits p (subpathVerts closed poly))
+  isort (subHits closed p poly)
 
 /-- `windings(pi.RayIntersections(x, y))` -/
 def windingsSub (closed : Bool) (p : IPt) (poly : List IPt) : Outcome :=
@@ -104,16 +123,14 @@ def windingsPathGo (p : IPt) : List Sub → Int → Bool → Outcome
   | [], n, b => .ok n b
   | s :: rest, n, b =>
     match windingsSub s.1 p s.2 with
-    | .panic => .panic
     | .ok ni bi => if bi then windingsPathGo p rest n true else windingsPathGo p rest (n + ni) b
 
 def windingsPath (p : IPt) (subs : List Sub) : Outcome := windingsPathGo p subs 0 false
 
 /-- `Path.Contains` -/
-def containsPath (rule : Rule) (p : IPt) (subs : List Sub) : Option Bool :=
+def containsPath (rule : Rule) (p : IPt) (subs : List Sub) : Bool :=
   match windingsPath p subs with
-  | .panic => none
-  | .ok n b => some (b || rule.fills n)
+  | .ok n b => b || rule.fills n
 
 /-- the loop of `Path.Crossings` over one subpath's hits, in half crossings -/
 def crossHalves : List Z → Int → Bool → Int × Bool
